@@ -2,6 +2,7 @@ import Pk.FitLaws
 import Pk.MatFlow
 import Pk.InvFlow
 import Pk.Leading
+import Pk.Inst
 /-! # C01 — Lift then retract returns the original data for every pipeline
 
 For every tree of lifting functions (all ten kinds, nested `SplitPipeline` / `KoopmanPipeline` to any
@@ -95,6 +96,25 @@ theorem C01_leading_state (hL : ops.Lawful ok) (s : S) (hnp : Stage.noPre s = tr
 
 /-- the retracted episode is never shorter than the lifted one, never longer than the original -/
 theorem C01_retract_len (s : S) : Stage.gain s ≤ Stage.loss s := Stage.gain_le_loss s
+
+/-- the integer instance used by the driver satisfies the laws of the opaque functions (so every hypothesis of the
+theorems above is satisfiable) -/
+theorem intOps_lawful : intOps.Lawful (fun _ => True) where
+  sk_inv := by intro id j v; rfl
+  atan2_sin_cos := by intro v _; rfl
+
+private def sDemo : S := .pipe (.cons (.rw (.poly 2 false)) (.cons (.split (.cons (.delay 2 1) .nil)
+    (.cons (.delay 0 1) (.cons (.rw .bilinear) .nil))) .nil))
+private def xDemo : Ep Int := [⟨[1, 2], [3]⟩, ⟨[4, 5], [6]⟩, ⟨[7, 8], [9]⟩, ⟨[10, 11], [12]⟩, ⟨[13, 14], [15]⟩]
+
+/-- non-vacuity of `C01_roundtrip_ep` on a concrete nested pipeline with unequal delays: the hypotheses hold and the
+conclusion is the expected concrete suffix (loss 2, gain 0: the last three samples come back) -/
+example : Stage.fit sDemo (2, 1) = .ok (15, 8) ∧ Typed 2 1 xDemo ∧ Stage.nSamplesIn sDemo 1 ≤ xDemo.length
+    ∧ Stage.inv (rowFn intOps) sDemo (2, 1) (Stage.tr (rowFn intOps) sDemo xDemo) = xDemo.drop 2 := by
+  refine ⟨by rfl, ?_, by decide, by decide⟩
+  intro r hr
+  simp only [xDemo, List.mem_cons, List.mem_nil_iff, or_false] at hr
+  rcases hr with rfl | rfl | rfl | rfl | rfl <;> exact ⟨rfl, rfl⟩
 
 /-- non-vacuity: the hypotheses are met by a concrete nested pipeline with unequal delays on `Int` data
 (the laws of the opaque functions hold for `intOps`-like identities). -/
